@@ -290,6 +290,52 @@ def wired_case(item):
     return res
 
 
+def cli_schedule_case(item):
+    """The recording schedule through the real command line: `phyclone run --num-iters I --thin T --burnin B --num-chains C`."""
+    import os
+    from mc import clidrv
+
+    iters, thin, burnin, chains, N = item
+    res = {"item": item, "problems": [], "entries": 0}
+    params = clidrv.run_params()
+    d = clidrv.scratch("c15cli_")
+    try:
+        f, cf = clidrv.write_input(d, 3, 2, True)
+        out = os.path.join(d, "trace.pkl.gz")
+        vals = {"num_iters": iters, "thin": thin, "burnin": burnin, "num_chains": chains, "num_particles": N, "grid_size": 11, "seed": 3 + iters, "print_freq": 1000, "outlier_prob": 0.05}
+        argv = ["run", "-i", f, "-o", out, "--cluster-file", cf]
+        for k, v in vals.items():
+            if k not in params:
+                res["problems"].append("the command line no longer has an option for %s" % k)
+                return res
+            argv += [clidrv.opt_string(params[k]), str(v)]
+        S.clear_caches()
+        code, exc, stdout = clidrv.invoke(argv, completion_order=list(range(chains))[::-1])
+        if exc is not None or code != 0:
+            res["problems"].append("phyclone run failed: exit code %r, %s: %s" % (code, type(exc).__name__, str(exc)[:120]))
+            return res
+        results = clidrv.read_trace(out)
+        want = [i for i in range(iters) if i % thin == 0]
+        if sorted(results) != list(range(chains)):
+            res["problems"].append("trace holds chains %r, asked for %d" % (sorted(results), chains))
+        for c in sorted(results):
+            tr = results[c]["trace"]
+            res["entries"] += len(tr)
+            got = [e["iter"] for e in tr]
+            if got[1:] != want:
+                res["problems"].append("chain %d of %d: recorded iterations %r after the burn-in entry; --num-iters %d --thin %d requires %r" % (c, chains, got[1:], iters, thin, want))
+            res["problems"] += entry_problems(tr, {dp.idx for dp in results[c]["data"]}, "chain %d " % c)[:2]
+    except Exception as e:
+        res["problems"].append("harness: %s: %s" % (type(e).__name__, str(e)[:150]))
+    finally:
+        clidrv.cleanup(d)
+    return res
+
+
+def cli_schedule_items(tier):
+    return [(iters, thin, burnin, chains, N) for iters in (1, 4, 7) for thin in (1, 2, 3) for burnin in (1, 2) for chains in (1, 2, 3) for N in ((2,) if tier == "quick" else (2, 4, 7))]
+
+
 def wired_items(tier):
     out = []
     props = ["bootstrap", "semi-adapted", "fully-adapted"]
@@ -361,7 +407,7 @@ def main(tier, seed):
                 "names, parents, data, outliers, last-edited clone, index maps, per-clone vectors, log_p, log_p_one; then EVERY enabled edit on original "
                 "and restored tree must agree. trace part: run_phyclone_chain under EnumRNG + virtual clock over iterations x thin x burn-in x time "
                 "limit x concentration update x proposal, 4 default policies at deviation bound 0 and bound 1 on a subset; whole-run part: the real run() "
-                "(input files, seeding, submission of 1/2/3 chains to an in-process executor in several completion orders, trace writer) over num_iters x num_particles x thin x burn-in; non-trivial = non-empty tree / "
+                "(input files, seeding, submission of 1/2/3 chains to an in-process executor in several completion orders, trace writer) over num_iters x num_particles x thin x burn-in, and the same through the command line (`phyclone run`, click, in-process); non-trivial = non-empty tree / "
                 "config with >= 2 distinct recorded traces")
     chk.assumptions = ["after relabel_nodes labels are compared up to renaming (pre-order follows sibling order)", "with a finite time limit the recorded iterations must be a prefix of the multiples of thin",
                        "trace part is deviation-bounded, not exhaustive over random outcomes"]
@@ -395,6 +441,14 @@ def main(tier, seed):
         chk.nontrivial.add(json.dumps(["wired", cfg], sort_keys=True))
         for pr in r["problems"][:3]:
             chk.violation({"sub": "run-wiring", "what": pr.split(":")[0][:50], "chains": cfg["chains"]}, {"config": cfg, "problem": pr}, {"kind": "wired", "config": cfg})
+    for r in pool_imap(cli_schedule_case, cli_schedule_items(tier), chunksize=2):
+        nw += 1
+        chk.transitions += r["item"][3]
+        chk.traces_validated += r["item"][3]
+        chk.bump("trace_entries_checked", r["entries"])
+        chk.nontrivial.add(json.dumps(["cli", list(r["item"])]))
+        for pr in r["problems"][:3]:
+            chk.violation({"sub": "run-cli", "what": pr.split(":")[0][:50], "chains": r["item"][3]}, {"iters,thin,burnin,chains,particles": list(r["item"]), "problem": pr}, {"kind": "cli", "item": list(r["item"])})
     chk.note("whole_run_configs", nw)
     chk.note("chain_runs", nexec)
     chk.note("chain_configs", len(items))
@@ -406,6 +460,10 @@ def main(tier, seed):
 def replay(path):
     body = json.load(open(path))
     rp = body["replay"]
+    if rp.get("kind") == "cli":
+        r = cli_schedule_case(tuple(rp["item"]))
+        print(r["problems"])
+        return 1 if r["problems"] else 0
     if rp.get("kind") == "wired":
         r = wired_case(tuple(sorted(rp["config"].items())))
         print(r["problems"])
